@@ -74,7 +74,16 @@ func iterStream(cfg *Config) *hx.Stats {
 		iterNestedOracle(cfg, st, w, rng, nProg+p)
 		st.Programs++
 	}
-	iterCheckRequired(cfg, st, iterRequired)
+	// children obtained through read-only / mutable enumerations of their parent, mutated and iterated
+	nRO := int(8 * cfg.Scale)
+	if nRO < 2 {
+		nRO = 2
+	}
+	for p := 0; p < nRO && len(st.Violations) <= 20 && st.HarnessErr == ""; p++ {
+		iterNestedReadOnly(cfg, st, w, rng, nProg+nNested+p)
+		st.Programs++
+	}
+	iterCheckRequired(cfg, st, append(append([]string{}, iterRequired...), iterNestRequired...))
 	st.TraceLines = w.Lines
 	st.Distinct = iterDistinct
 	atree.VerifSetThreshold(1024)
